@@ -11,6 +11,11 @@
 //	undoAbortsSave    lib/utxo UnspentDB.UndoBlockTxs: a running snapshot is aborted (unconditionally, at the top level of the
 //	commitAbortsSave  function) BEFORE the first statement that changes db.HashMap - the same for CommitBlockTxs
 //	idleFlushesFirst  lib/chain/chain.go Chain.Idle: Blocks.Idle() (flush + sync) is called before Unspent.Idle() (start a snapshot)
+//	flagRewriteSource lib/chain/blockdb.go BlockDB.setBlockFlag: the flag byte written back is the byte READ FROM THE FILE at the
+//	                  record's position with the flag ORed in | is rebuilt from the in-memory record (round 4)
+//	invalidRecordAdvances  BlockDB.LoadBlockIndex: a record flagged BLOCK_INVALID advances the index position counter like every
+//	                  other record (and: ipos is taken from the counter before it advances, exactly one advance per record)
+//	closeSaveGuard    lib/utxo UnspentDB.Close: UTXO.db is written when the set is dirty | dirty AND the heights differ
 //
 // The facts are canonical: local names, extraction of helpers (mutations / the abort reached through other methods of
 // UnspentDB are followed through the package's call graph), `a > b` vs `b < a`, merged or nested ifs do not change them.
@@ -481,6 +486,280 @@ func (p *utxoPkg) abortsBeforeMutation(name string) bool {
 	return firstAbort >= 0 && firstAbort < firstMut
 }
 
+// ------------------------------------------------------------------------------------------ 6. setBlockFlag
+
+func blockDBMethod(files map[string]*ast.File, name string) *ast.FuncDecl {
+	fd := findFunc(files, "BlockDB", name)
+	if fd == nil {
+		die(fmt.Errorf("lib/chain: BlockDB.%s not found", name))
+	}
+	return fd
+}
+
+// flagSource: where the byte that setBlockFlag writes back into blockchain.new comes from.
+//
+//	disk    the byte is read from the index file at the record's position (ReadAt on the same buffer, same position, before the
+//	        WriteAt) and the only other change of the buffer ORs the function's flag parameter into it
+//	memory  no read of the file precedes the write: the byte is rebuilt from what the process has in memory
+//
+// Anything else (a read at another position, an assignment that drops the byte read, several writes) is not a shape the model knows.
+func flagSource(files map[string]*ast.File) string {
+	fd := blockDBMethod(files, "setBlockFlag")
+	if fd.Type.Params == nil || len(fd.Type.Params.List) != 2 || len(fd.Type.Params.List[1].Names) != 1 {
+		die(fmt.Errorf("BlockDB.setBlockFlag: parameters (record, flag) expected"))
+	}
+	flag := fd.Type.Params.List[1].Names[0].Name
+	type ev struct {
+		kind, buf, pos, rhs string
+		at                  token.Pos
+	}
+	var evs []ev
+	ast.Inspect(fd.Body, func(n ast.Node) bool {
+		switch x := n.(type) {
+		case *ast.CallExpr:
+			if s, ok := x.Fun.(*ast.SelectorExpr); ok && (s.Sel.Name == "ReadAt" || s.Sel.Name == "WriteAt") && strings.HasSuffix(src(s.X), ".blockindx") && len(x.Args) == 2 {
+				evs = append(evs, ev{kind: s.Sel.Name, buf: strings.TrimSuffix(src(x.Args[0]), "[:]"), pos: src(x.Args[1]), at: x.Pos()})
+			}
+		case *ast.AssignStmt:
+			if len(x.Lhs) == 1 && len(x.Rhs) == 1 {
+				if ix, ok := x.Lhs[0].(*ast.IndexExpr); ok {
+					evs = append(evs, ev{kind: x.Tok.String(), buf: src(ix.X), pos: src(ix.Index), rhs: src(x.Rhs[0]), at: x.Pos()})
+				}
+			}
+		}
+		return true
+	})
+	sort.Slice(evs, func(i, j int) bool { return evs[i].at < evs[j].at })
+	var wr *ev
+	for i := range evs {
+		if evs[i].kind == "WriteAt" {
+			if wr != nil {
+				die(fmt.Errorf("BlockDB.setBlockFlag: more than one WriteAt on the index file"))
+			}
+			wr = &evs[i]
+		}
+	}
+	if wr == nil {
+		die(fmt.Errorf("BlockDB.setBlockFlag: no WriteAt on the index file"))
+	}
+	read, ored := false, false
+	for _, e := range evs {
+		if e.at >= wr.at || e.buf != wr.buf {
+			continue
+		}
+		switch e.kind {
+		case "ReadAt":
+			if e.pos != wr.pos {
+				die(fmt.Errorf("BlockDB.setBlockFlag: the byte is read at %s and written at %s", e.pos, wr.pos))
+			}
+			read, ored = true, false
+		case "|=":
+			if e.pos != "0" || e.rhs != flag {
+				die(fmt.Errorf("BlockDB.setBlockFlag: %s[%s] |= %s is not the flag parameter ORed into the byte", e.buf, e.pos, e.rhs))
+			}
+			ored = true
+		case "=":
+			b0 := e.buf + "[" + e.pos + "]"
+			if read && (e.rhs == b0+"|"+flag || e.rhs == flag+"|"+b0) {
+				ored = true
+				break
+			}
+			if read {
+				die(fmt.Errorf("BlockDB.setBlockFlag: the byte read from the file is overwritten by %s", e.rhs))
+			}
+			ored = strings.Contains(e.rhs, flag)
+		default:
+			die(fmt.Errorf("BlockDB.setBlockFlag: %s %s on the buffer is not a shape the model knows", e.buf, e.kind))
+		}
+	}
+	if !ored {
+		die(fmt.Errorf("BlockDB.setBlockFlag: the flag parameter does not reach the byte written"))
+	}
+	if read {
+		return "disk"
+	}
+	return "memory"
+}
+
+// ------------------------------------------------------------------------------------------ 7. LoadBlockIndex's position counter
+
+func isPosIncr(st ast.Stmt) bool {
+	a, ok := st.(*ast.AssignStmt)
+	if !ok || len(a.Lhs) != 1 || len(a.Rhs) != 1 || !strings.HasSuffix(src(a.Lhs[0]), ".maxidxfilepos") {
+		return false
+	}
+	l := src(a.Lhs[0])
+	switch {
+	case a.Tok == token.ADD_ASSIGN && src(a.Rhs[0]) == "136":
+		return true
+	case a.Tok == token.ASSIGN && (src(a.Rhs[0]) == l+"+136" || src(a.Rhs[0]) == "136+"+l):
+		return true
+	}
+	die(fmt.Errorf("BlockDB.LoadBlockIndex: %s changes the index position by something else than one record", src(a)))
+	return false
+}
+
+// invalidAdvances: does a record flagged BLOCK_INVALID advance db.maxidxfilepos by its 136 bytes like every other record? The
+// function also insists on what the model takes for granted about the valid path: `ipos` is taken from the counter BEFORE the
+// counter advances, and the counter advances exactly once.
+func invalidAdvances(files map[string]*ast.File) bool {
+	fd := blockDBMethod(files, "LoadBlockIndex")
+	var loop *ast.ForStmt
+	ast.Inspect(fd.Body, func(n ast.Node) bool {
+		if f, ok := n.(*ast.ForStmt); ok && loop == nil && strings.Contains(src(f.Body), "io.ReadFull(") {
+			loop = f
+		}
+		return true
+	})
+	if loop == nil {
+		die(fmt.Errorf("BlockDB.LoadBlockIndex: the loop reading 136-byte records was not found"))
+	}
+	before, inInvalid, after, iposAt, invAt := 0, 0, 0, -1, -1
+	for i, st := range loop.Body.List {
+		if isPosIncr(st) {
+			if invAt < 0 {
+				before++
+			} else {
+				after++
+				if iposAt < 0 {
+					die(fmt.Errorf("BlockDB.LoadBlockIndex: the index position advances before a record's ipos is taken from it"))
+				}
+			}
+			continue
+		}
+		if ifs, ok := st.(*ast.IfStmt); ok && strings.Contains(src(ifs.Cond), "BLOCK_INVALID") && invAt < 0 {
+			invAt = i
+			endsInContinue := false
+			if n := len(ifs.Body.List); n > 0 {
+				if br, ok := ifs.Body.List[n-1].(*ast.BranchStmt); ok && br.Tok == token.CONTINUE {
+					endsInContinue = true
+				}
+			}
+			if !endsInContinue || ifs.Else != nil {
+				die(fmt.Errorf("BlockDB.LoadBlockIndex: the branch for records flagged invalid does not end in `continue`"))
+			}
+			for _, s2 := range ifs.Body.List {
+				if isPosIncr(s2) {
+					inInvalid++
+				}
+			}
+			continue
+		}
+		if a, ok := st.(*ast.AssignStmt); ok && len(a.Lhs) == 1 && len(a.Rhs) == 1 && strings.HasSuffix(src(a.Lhs[0]), ".ipos") && strings.HasSuffix(src(a.Rhs[0]), ".maxidxfilepos") {
+			iposAt = i
+			continue
+		}
+		// a position change hidden in a nested statement of the valid path is not a shape the model knows
+		nested := false
+		ast.Inspect(st, func(n ast.Node) bool {
+			if s, ok := n.(ast.Stmt); ok && s != st {
+				if a, ok := s.(*ast.AssignStmt); ok && len(a.Lhs) == 1 && strings.HasSuffix(src(a.Lhs[0]), ".maxidxfilepos") {
+					nested = true
+				}
+			}
+			return true
+		})
+		if nested {
+			die(fmt.Errorf("BlockDB.LoadBlockIndex: the index position is changed inside a nested statement (%s…)", src(st)[:40]))
+		}
+	}
+	if invAt < 0 {
+		die(fmt.Errorf("BlockDB.LoadBlockIndex: the branch for records flagged invalid was not found"))
+	}
+	if iposAt < 0 {
+		die(fmt.Errorf("BlockDB.LoadBlockIndex: `<record>.ipos = db.maxidxfilepos` was not found at the top level of the loop"))
+	}
+	if before > 0 {
+		die(fmt.Errorf("BlockDB.LoadBlockIndex: the index position advances before the record is looked at (ipos would be one record too high)"))
+	}
+	if after != 1 {
+		die(fmt.Errorf("BlockDB.LoadBlockIndex: a valid record advances the index position %d times", after))
+	}
+	if inInvalid > 1 {
+		die(fmt.Errorf("BlockDB.LoadBlockIndex: an invalid record advances the index position %d times", inInvalid))
+	}
+	return inInvalid == 1
+}
+
+// ------------------------------------------------------------------------------------------ 8. UnspentDB.Close
+
+// closeGuard: under which condition UnspentDB.Close writes UTXO.db before it waits for the writer:
+//
+//	dirty                   db.DirtyDB.Get() alone (the unspent set in memory was changed since the last complete snapshot)
+//	dirtyAndHeightDiffers   the condition (directly or through methods of UnspentDB it calls) also looks at the height in memory
+//	                        and / or the height on disk
+func closeGuard(p *utxoPkg) string {
+	fd := p.methods["Close"]
+	if fd == nil {
+		die(fmt.Errorf("lib/utxo: UnspentDB.Close not found"))
+	}
+	var conds []ast.Expr
+	saves, bare := 0, 0
+	for _, st := range fd.Body.List {
+		if ifs, ok := st.(*ast.IfStmt); ok {
+			calls := false
+			for _, c := range callsOf(ifs.Body, p.methods) {
+				if c == "Save" || c == "save" {
+					calls = true
+				}
+			}
+			if calls {
+				saves++
+				conds = append(conds, ifs.Cond)
+				if ifs.Else != nil {
+					die(fmt.Errorf("UnspentDB.Close: the save is one arm of an if/else - not a shape the model knows"))
+				}
+			}
+			continue
+		}
+		for _, c := range callsOf(st, p.methods) {
+			if c == "Save" || c == "save" {
+				bare++
+			}
+		}
+	}
+	if bare > 0 {
+		die(fmt.Errorf("UnspentDB.Close: an unconditional save - not a shape the model knows"))
+	}
+	if saves != 1 {
+		die(fmt.Errorf("UnspentDB.Close: %d conditional saves (the model was written for exactly one)", saves))
+	}
+	cond := conds[0]
+	for {
+		if pe, ok := cond.(*ast.ParenExpr); ok {
+			cond = pe.X
+			continue
+		}
+		break
+	}
+	text := src(cond)
+	if strings.HasSuffix(text, ".DirtyDB.Get()") && strings.Count(text, "(") == 1 {
+		return "dirty"
+	}
+	// everything the condition can reach through methods of UnspentDB
+	seen := map[string]bool{}
+	all := text
+	var follow func(n ast.Node)
+	follow = func(n ast.Node) {
+		for _, c := range callsOf(n, p.methods) {
+			if !seen[c] {
+				seen[c] = true
+				all += src(p.methods[c].Body)
+				follow(p.methods[c].Body)
+			}
+		}
+	}
+	follow(cond)
+	if !strings.Contains(all, ".DirtyDB.Get()") {
+		die(fmt.Errorf("UnspentDB.Close: the condition %q of the save does not ask whether the set is dirty", text))
+	}
+	if strings.Contains(all, "LastBlockHeight") || strings.Contains(all, "CurrentHeightOnDisk") {
+		return "dirtyAndHeightDiffers"
+	}
+	die(fmt.Errorf("UnspentDB.Close: the condition %q of the save is not a shape the model knows", text))
+	return ""
+}
+
 func main() {
 	chainFiles := parseDir("lib/chain")
 	lm := lockMode()
@@ -489,9 +768,12 @@ func main() {
 	up := loadUtxo()
 	ua := up.abortsBeforeMutation("UndoBlockTxs")
 	ca := up.abortsBeforeMutation("CommitBlockTxs")
+	fs := flagSource(chainFiles)
+	ia := invalidAdvances(chainFiles)
+	cg := closeGuard(up)
 
 	var sb strings.Builder
-	sb.WriteString("/- GENERATED by go/cmd/gen_c07 from lib/others/sys/dblock_unix.go, lib/chain/chain.go, lib/utxo/*.go — do not edit; not in git. -/\n")
+	sb.WriteString("/- GENERATED by go/cmd/gen_c07 from lib/others/sys/dblock_unix.go, lib/chain/chain.go, lib/chain/blockdb.go, lib/utxo/*.go — do not edit; not in git. -/\n")
 	sb.WriteString("namespace GocoinV.Gen.C07Facts\n\n")
 	sb.WriteString("/-- how LockDatabaseDir (unix) obtains <datadir>/.lock -/\ninductive LockOpenMode | openOrCreate | removeThenExcl | createExcl\nderiving Repr, DecidableEq\n\n")
 	fmt.Fprintf(&sb, "def lockOpenMode : LockOpenMode := .%s\n\n", lm)
@@ -500,6 +782,11 @@ func main() {
 	fmt.Fprintf(&sb, "/-- UnspentDB.UndoBlockTxs aborts a running snapshot before its first change of db.HashMap -/\ndef undoAbortsSave : Bool := %v\n", ua)
 	fmt.Fprintf(&sb, "/-- UnspentDB.CommitBlockTxs aborts a running snapshot before its first change of db.HashMap -/\ndef commitAbortsSave : Bool := %v\n", ca)
 	fmt.Fprintf(&sb, "/-- Chain.Idle: Blocks.Idle() before Unspent.Idle() -/\ndef idleFlushesFirst : Bool := %v\n", io)
+	sb.WriteString("\n/-- BlockDB.setBlockFlag: the byte written back into blockchain.new is the byte read from the file at the record's position with the flag ORed in / is rebuilt from the in-memory record -/\ninductive FlagSource | disk | memory\nderiving Repr, DecidableEq\n\n")
+	fmt.Fprintf(&sb, "def flagRewriteSource : FlagSource := .%s\n\n", fs)
+	fmt.Fprintf(&sb, "/-- BlockDB.LoadBlockIndex: a record flagged BLOCK_INVALID advances the index position by its 136 bytes -/\ndef invalidRecordAdvances : Bool := %v\n\n", ia)
+	sb.WriteString("/-- UnspentDB.Close writes UTXO.db when the set is dirty / when it is dirty and the heights in memory and on disk differ -/\ninductive CloseGuard | dirty | dirtyAndHeightDiffers\nderiving Repr, DecidableEq\n\n")
+	fmt.Fprintf(&sb, "def closeSaveGuard : CloseGuard := .%s\n", cg)
 	sb.WriteString("\nend GocoinV.Gen.C07Facts\n")
 	out := vlib.Root() + "/lean/GocoinV/Gen/C07Facts.lean"
 	if o := os.Getenv("GEN_C07_OUT"); o != "" { // experiments: leave the shared Gen/ file alone
@@ -509,5 +796,5 @@ func main() {
 	if err := os.WriteFile(out, []byte(sb.String()), 0644); err != nil {
 		die(err)
 	}
-	fmt.Printf("FACTS 5\n")
+	fmt.Printf("FACTS 8\n")
 }
